@@ -642,6 +642,25 @@ func (env *Env) callFunc(fobj *types.Func, recv *Val, args []Val, st *State, cal
 			}
 		}
 	}
+	// library function with a contract declared as "ext:pkg.Type.Method" / "ext:pkg.Func"
+	if fi == nil && fobj.Pkg() != nil {
+		key := fobj.Pkg().Name() + "." + fobj.Name()
+		if sg, ok := fobj.Type().(*types.Signature); ok && sg.Recv() != nil {
+			rt := types.Unalias(sg.Recv().Type())
+			if p, ok := rt.(*types.Pointer); ok {
+				rt = types.Unalias(p.Elem())
+			}
+			if n, ok := rt.(*types.Named); ok {
+				key = fobj.Pkg().Name() + "." + n.Obj().Name() + "." + fobj.Name()
+			}
+		}
+		if f2, ok := c.e.funcs[key]; ok && f2.Contract != nil {
+			fi = f2
+			if fi.Obj == nil {
+				fi.Obj = fobj
+			}
+		}
+	}
 	if fi != nil && fi.Ghost && fi.Decl != nil {
 		return env.inlineFunc(fi, recv, args, st, call)
 	}
@@ -945,6 +964,10 @@ func (env *Env) applyContract(fi *FuncInfo, recv *Val, args []Val, st *State, ca
 	post.callerSide = true
 	post.qvars, post.qnames = env.qvars, env.qnames
 	for _, en := range con.Ensures {
+		st.assume(post.evalBool(en.Expr, st))
+	}
+	for _, en := range con.Assumes {
+		c.trust("assumed postcondition of " + fi.Key + ": " + en.Text)
 		st.assume(post.evalBool(en.Expr, st))
 	}
 	switch len(results) {
